@@ -330,6 +330,88 @@ def wait_outcome(layer, scen, state, pid=7):
     return S.classify(layer, kind, r, need_fired=False)
 
 
+# ---- front-end histories: [name(), then a failing method] through <frontend copy>.Process over the stub layer
+# front-end method -> (platform method, native call it fails at) per platform
+FE_METHODS = {
+    "cmdline": {"freebsd": "proc_cmdline", "openbsd": "proc_cmdline", "netbsd": "proc_cmdline", "macos": "proc_cmdline",
+                "sunos": "proc_name_and_args", "aix": "proc_args"},
+    "cwd": {"freebsd": "proc_cwd", "openbsd": "proc_cwd", "netbsd": "proc_cwd", "macos": "proc_cwd",
+            "sunos": "os.readlink", "aix": "os.readlink"},
+    "threads": {"freebsd": "proc_threads", "openbsd": "proc_threads", "netbsd": "proc_threads", "macos": "proc_threads",
+                "sunos": "os.listdir", "aix": "proc_threads"},
+    "num_fds": {"freebsd": "proc_num_fds", "openbsd": "proc_num_fds", "netbsd": "proc_num_fds", "macos": "proc_num_fds",
+                "sunos": "os.listdir", "aix": "os.listdir"},
+    "environ": {p: "proc_environ" for p in ("freebsd", "openbsd", "netbsd", "macos", "sunos", "aix")},
+    "nice": {"freebsd": "getpriority", "openbsd": "getpriority", "netbsd": "getpriority", "macos": "getpriority", "aix": "getpriority"},
+    "wait": {p: "os.waitpid" for p in ("freebsd", "openbsd", "netbsd", "macos", "sunos", "aix")},
+}
+FE_PLAT_METH = {"nice": "nice_get"}
+FE_NAMES = [  # (kernel name, cmdline[0])
+    ("bash", "/bin/bash"),                                        # short: never extended
+    ("gnome-keyring-d", "/usr/bin/gnome-keyring-daemon"),         # 15 bytes, cmdline basename extends it
+    ("gnome-keyring-d", "/usr/bin/python3"),                      # 15 bytes, cmdline does not match
+    ("exactly15bytes_", "exactly15bytes_"),                       # 15 bytes, nothing to add
+    ("a-sixteen-b-name", "/opt/a-sixteen-b-name-and-more"),       # > 15 (platforms without truncation), extended
+    ("kworker/0:1", "relative/kworker/0:1"),
+]
+
+
+def fe_history(fe, kname, cmd0, name_mode, meth, site, err, state, pid=7):
+    """name_mode: 'call' | 'skip' | 'fail'.  Returns [returned name or None, outcome] where outcome is
+    T(class, pid, name) for a psutil exception, T('Raw'), T('Val') or T('Other', cls)."""
+    from pv.canon import B, T
+    pkg, w = fe.mod, fe.world
+    w.reset(pid=pid, state="alive")
+    w.kname, w.cmd0 = kname, cmd0
+    proc = pkg.Process(pid)
+    returned = None
+    if name_mode == "call":
+        returned = proc.name()
+    elif name_mode == "fail":
+        w.faults = {"*": [(None, "EPERM")]}
+        try:
+            proc.name()
+            returned = "<name() did not fail>"
+        except pkg.Error:
+            pass
+        w.faults = {}
+    w.state = state
+    w.faults = {site: [(None, err)]} if site is not None else {}
+    w.ncalls, w.fired, w.raised = {}, 0, []
+    args = (0,) if meth == "wait" else ()
+    try:
+        getattr(proc, meth)(*args)
+        out = T("Val")
+    except pkg.Error as e:
+        nm = getattr(e, "name", None)
+        out = T(type(e).__name__, e.pid if isinstance(e.pid, int) else -1, B(nm) if isinstance(nm, str) else None)
+    except OSError as e:
+        out = T("Raw") if any(e is x for x in w.raised) else T("Other", B(type(e).__name__))
+    except Exception as e:  # noqa
+        out = T("Other", B(type(e).__name__))
+    return [None if returned is None else B(returned), out]
+
+
+FE_GRID = [("cmdline", "ESRCH", "gone"), ("cmdline", "EPERM", "alive"), ("cwd", "ESRCH", "zombie"), ("threads", "EACCES", "alive"),
+           ("num_fds", "ESRCH", "gone"), ("environ", "EPERM", "alive"), ("nice", "ESRCH", "gone"), ("wait", None, "alive")]
+
+
+def fe_rows(fe, plat, names=None, grid=None):
+    rows = []
+    for kn, c0 in (names or FE_NAMES):
+        for mode in ("call", "skip", "fail"):
+            for meth, err, st in (grid or FE_GRID):
+                site = FE_METHODS[meth].get(plat)
+                if site is None:
+                    continue
+                if meth == "wait":
+                    site = None
+                r = fe_history(fe, kn, c0, mode, meth, site, err, st)
+                rows.append({"plat": plat, "kname": kn, "cmd0": c0, "mode": mode, "meth": FE_PLAT_METH.get(meth, meth),
+                             "femeth": meth, "site": site or "", "err": err or "ESRCH", "state": st, "returned": r[0], "out": r[1]})
+    return rows
+
+
 NIC_PROBES = [
     # fam (0 inet, 1 inet6, 2 link, 3 other), addr text, mask text or None, broadcast in
     (0, "192.168.1.7", "255.255.255.0", None), (0, "10.1.2.3", "255.0.0.0", None), (0, "10.1.2.3", "255.255.255.255", None),
@@ -372,7 +454,7 @@ def run_nic(fe, fam, addr, mask, bcast):
 
 def probe_all(impl_dir, workdir):
     out = {"slot_maps": [], "usage": [], "ladder": [], "sites": {}, "names": [], "nic": [], "methods": {},
-           "status": [], "sladder": [], "pairs": [], "retry": [], "wait": [], "sysfields": [], "allfail": [], "probe": []}
+           "status": [], "sladder": [], "pairs": [], "retry": [], "wait": [], "sysfields": [], "allfail": [], "probe": [], "fename": []}
     for plat in S.PLATS:
         layer = S.Layer(plat, impl_dir)
         for m in MAPS[plat]:
@@ -447,6 +529,8 @@ def probe_all(impl_dir, workdir):
                              "dir": sorted(n for n in dir(pkg) if not n.startswith("_") or n in pkg.__all__),
                              "methods": sorted(n for n in dir(pkg.Process) if not n.startswith("_")),
                              "unresolved": sorted(n for n in set(pkg.__all__) if not hasattr(pkg, n))})
+        if plat != "windows":
+            out["fename"].extend(fe_rows(fe, plat))
         plat_mod, common = pkg._psplatform, pkg._common
         for fn, cls in (("cpu_times", plat_mod.scputimes), ("virtual_memory", plat_mod.svmem), ("swap_memory", common.sswap),
                         ("disk_io_counters", getattr(plat_mod, "sdiskio", common.sdiskio)), ("net_io_counters", common.snetio)):
@@ -516,6 +600,7 @@ def _outs_coq(outs):
 
 
 def emit_coq(data):
+    st_coq = {"alive": "Alive", "zombie": "Zombie", "gone": "Gone"}
     L = ["(* GENERATED by props/_c20_probe.py from the psutil under test -- do not edit. *)",
          "From PV Require Import C20.Model.", "Local Open Scope string_scope.", ""]
     L.append("Definition slot_maps : list smap := [")
@@ -554,6 +639,23 @@ def emit_coq(data):
     L.append(";\n".join("  Build_lblock %s %s %s [%s]" % (COQ_PLAT[b["plat"]], qs(b["meth"]), qs(b["site"]), _outs_coq(b["outs"]))
                         for b in data["probe"]))
     L.append("].\n")
+    def optby(x):
+        return "None" if x is None else "(Some %s)" % by(bytes.fromhex(x["b"]).decode("utf-8", "surrogateescape"))
+    cls_map = {"NoSuchProcess": "RNoSuch", "ZombieProcess": "RZombie", "AccessDenied": "RDenied", "TimeoutExpired": "RTimeout",
+               "Raw": "RRaw", "Val": "RVal"}
+    L.append("Definition fename_rows : list frow := [")
+    rows = []
+    for r in data["fename"]:
+        o = r["out"]
+        if o["t"] not in cls_map:
+            raise RuntimeError("C20 probe: front-end history ended with %r" % (o,))
+        carried = o["t"] in ("NoSuchProcess", "ZombieProcess", "AccessDenied", "TimeoutExpired")
+        rows.append("  Build_frow %s %s %s %d %s %s %s %s %s %s %s %s" % (
+            COQ_PLAT[r["plat"]], by(r["kname"]), by(r["cmd0"]), {"call": 0, "skip": 1, "fail": 2}[r["mode"]], qs(r["meth"]), qs(r["site"]),
+            r["err"], st_coq[r["state"]], optby(r["returned"]), cls_map[o["t"]],
+            "true" if (not carried or o["a"][0] == 7) else "false", optby(o["a"][1]) if carried else "None"))
+    L.append(";\n".join(rows))
+    L.append("].\n")
     L.append("Definition status_rows : list srow := [")
     L.append(";\n".join("  Build_srow %s [%s]" % (COQ_PLAT[r["plat"]], "; ".join("(%s, %s)" % (qs(c), qs(t)) for c, t in r["codes"]))
                         for r in data["status"]))
@@ -562,7 +664,6 @@ def emit_coq(data):
     L.append(";\n".join("  Build_sblock %s %s %s %s [%s]" % (COQ_PLAT[b["plat"]], qs(b["meth"]), qs(b["site"]), qs(b["code"]),
                                                               _outs_coq(b["outs"])) for b in data["sladder"]))
     L.append("].\n")
-    st_coq = {"alive": "Alive", "zombie": "Zombie", "gone": "Gone"}
     L.append("Definition pair_blocks : list pblock := [")
     L.append(";\n".join("  Build_pblock %s %s %s %s [%s]" % (COQ_PLAT[b["plat"]], qs(b["meth"]), qs(b["site1"]), qs(b["site2"]),
                                                               _outs_coq(b["outs"])) for b in data["pairs"]))
